@@ -31,10 +31,19 @@ def has_param(fn, name):
     return any(x.arg == name for x in a.posonlyargs + a.args + a.kwonlyargs)
 
 
+def _mentions_cache_field(expr):
+    return any(
+        isinstance(x, ast.Attribute) and isinstance(x.value, ast.Name) and x.value.id == "self" and _is_cache_field(x.attr)
+        for x in ast.walk(expr)
+    )
+
+
 def fe_methods(tree):
+    """Methods of the frontend classes; locals that merely name a cache field (or a selection between cache
+    fields) are inlined so that the cache rules see through `exhausted = self._a if signed else self._b`."""
     for m, c in frontend_classes(tree):
         for name, fn in util.methods_of(c).items():
-            yield m, c, name, fn
+            yield m, c, name, util.inline_aliases(fn, _mentions_cache_field)
 
 
 def _no_extra(node):
@@ -112,7 +121,9 @@ def c11_extra(R):
                 fields = set()
                 for x in ast.walk(n.comparators[0]):
                     a = util.recv_attr(x, "self")
-                    if a and a.endswith("_exhausted") and a != "_eval_exhausted":
+                    # (an exhaustive enumeration is no better: the cached models that satisfy the extra
+                    # constraints are a subset of the feasible ones when the extras mention other variables)
+                    if a and a.endswith("_exhausted"):
                         fields.add(a)
                 for a in sorted(fields):
                     R.check(
@@ -314,6 +325,7 @@ def c11_deadcache(R):
         written = {}
         read = set()
         for name, fn in ms.items():
+            fn = util.inline_aliases(fn, _mentions_cache_field)
             for n in ast.walk(fn):
                 # informative writes: subscript stores (also through a conditional selection)
                 if isinstance(n, ast.Assign) and isinstance(n.targets[0], ast.Subscript) and name not in PLUMBING:
